@@ -418,6 +418,9 @@ def t_split(E):
         if fobj is st.get('not_'):
             return pointwise(E, den, NOTS(den), lambda c: z3.Not(truthy(c)),
                              'stub: operator.not_ maps a value to the negation of its truthiness')
+        if isinstance(fobj, (VClass, VStub)) and getattr(fobj, 'name', '') == 'bool':
+            return pointwise(E, den, E.fresh('mapped_bool', VS), lambda c: truthy(c),
+                             'bool(x) is the truthiness of x')
         if fobj is st.get('cond_callable'):
             st['cond_maps'] = st.get('cond_maps', 0) + 1
             st['cond_map_src'] = den
@@ -520,7 +523,22 @@ def t_split(E):
             cond = mk_iter(C)
             Ceff = C
         E.builtins['__callable__'] = lambda E, o: VBool(o is st.get('cond_callable')) \
-            if isinstance(o, Obj) and o.cls in ('callable', 'Iter') else None
+            if isinstance(o, Obj) and o.cls in ('callable', 'Iter') else \
+            VBool(True) if isinstance(o, (VClass, VStub)) else None
+
+        def _truth(E_, v):
+            # an ARGUMENT that is an iterable may be a sized container: falsy exactly when empty (an iterator object is
+            # always truthy); a callable is truthy
+            if v is cond and isinstance(v, Obj) and v.cls == 'Iter':
+                t = E.fresh('condition_argument_is_truthy', B)
+                E.assume(z3.Implies(z3.Not(t), z3.Length(C) == 0))
+                return t
+            if v is src:
+                t = E.fresh('source_argument_is_truthy', B)
+                E.assume(z3.Implies(z3.Not(t), z3.Length(X) == 0))
+                return t
+            return None
+        E.builtins['__truth__'] = _truth
 
         def _hasattr(E_, a, k):
             o, n = a[0], a[1].concrete() if isinstance(a[1], VStr) else None
